@@ -441,7 +441,9 @@ def loopvar_interval(tr, inner):
             return None
         vals.append(iv)
     if lp.a.get("enters") is not True and not _surely_entered(lp):
-        iv = interval((lp.a.get("pre") or {}).get(name))
+        # (refined by what the path tested before the loop: `return x if x != 0 else 1` read as two returns leaves x under x != 0)
+        pre_facts = {c.term: c.pol for c in lp.conds}
+        iv = refined_interval((lp.a.get("pre") or {}).get(name), pre_facts)
         if iv is None:
             return None
         vals.append(iv)
